@@ -132,12 +132,20 @@ def readAllValuesRaw (data : Bytes) (used : Int) : PyM (List Item) := do
   let used ← if used ≤ 0 then unpackInt data headerPos else .ok used
   if used ≤ 0 then .ok [] else readLoop data used.toNat used.toNat scanStart
 
+/-- `if len(data) < N: return iter(())` — whether the extracted guard (if the source has one) fires -/
+def shortFile (data : Bytes) : Bool :=
+  match shortFileGuard with
+  | some n => decide (data.length < n)
+  | none => false
+
 /-- `MmapedDict.read_all_values_from_file(filename)`, fully iterated (`pageSize` = `mmap.PAGESIZE`) -/
-def readAllValuesFromFile (pageSize : Nat) (file : Bytes) : PyM (List Item) := do
+def readAllValuesFromFile (pageSize : Nat) (file : Bytes) : PyM (List Item) :=
   let data := file.take pageSize
-  let used ← unpackInt data headerPos
-  let data := if used > data.length then data ++ (file.drop data.length).take (used.toNat - data.length) else data
-  readAllValuesRaw data used
+  if shortFile data then .ok []
+  else do
+    let used ← unpackInt data headerPos
+    let data := if used > data.length then data ++ (file.drop data.length).take (used.toNat - data.length) else data
+    readAllValuesRaw data used
 
 /-! ## `MmapedDict` -/
 
